@@ -27,7 +27,7 @@ type pdInput struct {
 	peers  []*metapb.Peer // parallel to Case.Peers
 }
 
-func buildPD(c *Case, cache *storeCache) *pdInput {
+func buildPD(c *Case, cache *storeCache, rules []*placement.Rule) *pdInput {
 	in := &pdInput{}
 	if cache != nil && len(c.Stores) > 0 && cache.first == &c.Stores[0] && cache.n == len(c.Stores) {
 		in.stores = cache.set
@@ -49,13 +49,10 @@ func buildPD(c *Case, cache *storeCache) *pdInput {
 		in.peers = append(in.peers, mp)
 	}
 	in.region = core.NewRegionInfo(&metapb.Region{Id: 1, Peers: in.peers, RegionEpoch: &metapb.RegionEpoch{ConfVer: 1, Version: 1}}, leader)
-	for i, r := range c.Rules {
-		pr := &placement.Rule{GroupID: "pd", ID: r.ID, Index: i, Role: placement.PeerRoleType(r.Role), Count: r.Count,
-			LocationLabels: append([]string(nil), r.Loc...)}
-		for _, x := range r.Cons {
-			pr.LabelConstraints = append(pr.LabelConstraints, placement.LabelConstraint{Key: x.Key, Op: placement.LabelConstraintOp(x.Op), Values: append([]string(nil), x.Values...)})
-		}
-		in.rules = append(in.rules, pr)
+	if rules != nil {
+		in.rules = rules // objects obtained from a RuleManager: used as they are
+	} else {
+		in.rules = plainRules(c)
 	}
 	return in
 }
@@ -222,7 +219,11 @@ type storeCache struct {
 }
 
 // judge runs the real FitRegion on the case and checks every clause of the property against the model.
-func judge(c *Case, seed uint64, cache *storeCache) (out *outcome) {
+func judge(c *Case, seed uint64, cache *storeCache) *outcome { return judgeRules(c, seed, cache, nil) }
+
+// judgeRules: rules == nil builds plain Rule literals from the case; otherwise the given objects are
+// passed to FitRegion and c.Rules must be what their exported fields show.
+func judgeRules(c *Case, seed uint64, cache *storeCache, rules []*placement.Rule) (out *outcome) {
 	out = &outcome{}
 	m, skip := newModel(c)
 	if skip != "" {
@@ -237,7 +238,7 @@ func judge(c *Case, seed uint64, cache *storeCache) (out *outcome) {
 		}
 		out.Findings = append(out.Findings, finding{key, fmt.Sprintf(format, a...)})
 	}
-	in := buildPD(c, cache)
+	in := buildPD(c, cache, rules)
 	var got *placement.RegionFit
 	func() {
 		defer func() {
